@@ -43,7 +43,10 @@ var c20uid int
 
 func sanitise(k string) string { return c20invalid.ReplaceAllString(k, "_") }
 
-var c20Keys = []string{"app", "team", "tier_1", "extendeddaemonset.datadoghq.com/name", "app.kubernetes.io/name", "app.kubernetes.io/managed-by", "my-label", "a.b", "a/b", "a_b", "a-b", "x.y/z-w"}
+var c20Keys = []string{"app", "team", "tier_1", "extendeddaemonset.datadoghq.com/name", "app.kubernetes.io/name", "app.kubernetes.io/managed-by", "my-label", "a.b", "a/b", "a_b", "a-b", "x.y/z-w",
+	// keys whose relative order changes when they are sanitised ('.', '/', '-' sort before digits and
+	// upper-case letters, their replacement '_' after them)
+	"a0", "aB", "app2", "appVersion", "x.y0", "x.yZ"}
 
 func (e *C20) Run(ctx *core.Ctx, idx int) {
 	for i := 0; i < 300; i++ {
